@@ -64,9 +64,27 @@ def insertIdx (x : Nat × Item) : List (Nat × Item) → List (Nat × Item)
   | [] => [x]
   | y :: ys => if y.1 ≤ x.1 then y :: insertIdx x ys else x :: y :: ys
 
+/-- `chunks_of` of the harness: the history split at floor(len * c / 100). -/
+def chunksOf (h : Hist) (cuts : List Nat) : List Hist :=
+  let n := h.length
+  let rec go (rest : Hist) (start : Nat) : List Nat → List Hist
+    | [] => [rest]
+    | c :: cs =>
+      let stop := max start (n * c / 100)
+      rest.take (stop - start) :: go (rest.drop (stop - start)) stop cs
+  go h 0 cuts
+
 def updateOf (ops : EvoOps) (pop : List Item) (_step : Nat) : List Item :=
   match ops.update with
   | "last" => pop.drop (pop.length - ops.keep)
+  | "duel" =>
+    if pop.length > ops.keep then
+      match pop with
+      | a :: b :: rest => if fitness a > fitness b then a :: rest else b :: rest
+      | _ => pop
+    else pop
+  | "step" =>
+    if pop.length > ops.keep then pop.eraseIdx (_step % pop.length) else pop
   | "top" =>
     let idx := (List.range pop.length).zip pop
     -- sort by (-fitness, position): insert from the right so that equal keys stay in position order
@@ -133,9 +151,10 @@ def handle (j : J) : J :=
     let ops' := ops.getD ⟨"", 0, "none", 0⟩
     let env : Env := { space := space, draw := draw, hash := fun hid d => if hid = 0 then d + 1000000 else d % hid,
                        repro := reproOf n ops', update := updateOf ops', q := currentQuirks }
+    let cuts := ((j.getArr? "cuts").getD []).filterMap J.asNat?
     let ks := (List.range (events.length + 1)).map fun k =>
       let live := runLive env algo (events.take k)
-      let recJ : J × J := match recover env algo (setup algo) live.hist with
+      let recJ : J × J := match recoverChunks env algo (setup algo) (chunksOf live.hist cuts) with
         | .error e => (.obj [("error", .str (errName e))], .arr [])
         | .ok s => (obsJ algo s, .arr ((proposeN env algo m s).1.map nextJ))
       .obj [("live", obsJ algo live.st), ("rec", recJ.1),
